@@ -267,3 +267,25 @@ Definition canon_res {A} (f : A -> list Z) (r : res A) : list Z :=
 Definition canon_ok (l : list Z) : list Z := 0%Z :: l.
 Definition canon_bstep (r : bbmd * list action) : list Z := canon_bbmd (fst r) ++ canon_actions (snd r).
 Definition canon_fstep (r : foreign * list action) : list Z := canon_foreign (fst r) ++ canon_actions (snd r).
+
+(* ------------------------------------------------------------------ histories of one BBMD *)
+Inductive bev :=
+| BConf (src : addr) (d : dest) (m : msg)     (* a frame arrives *)
+| BInd (d : dest) (p : npdu)                  (* its own network layer sends *)
+| BTick.                                      (* the 1 s recurring task *)
+
+Definition bbmd_step (b : bbmd) (e : bev) : bbmd * list action :=
+  match e with
+  | BConf s d m => bbmd_confirmation b s d m
+  | BInd d p => (b, bbmd_indication b d p)
+  | BTick => (bbmd_tick b, [])
+  end.
+
+Definition bbmd_run (b : bbmd) (es : list bev) : bbmd := fold_left (fun b e => fst (bbmd_step b e)) es b.
+
+(* per event: the table after it and what was emitted *)
+Fixpoint canon_hist (b : bbmd) (es : list bev) : list Z :=
+  match es with
+  | [] => []
+  | e :: r => let (b', a) := bbmd_step b e in canon_fdt (b_fdt b') ++ canon_actions a ++ canon_hist b' r
+  end.
